@@ -53,42 +53,58 @@ def k_bytes(l1):
     chk.used(prog, fname, "ring mode")
     chk.used(prog, prog.find("Point).bytes"), "ring mode (Invert -> inv symbol, Element.Bytes -> canonical encoding symbol, IsNegative -> parity symbol)")
     chk.used(prog, K.E + "copyFieldElement", "ring mode")
-    label = "Point.Bytes"
     path = l1.path()
     P1 = l1.p3("1")
     p = l1.obj(path, "Point", P1.coords())
-    r = l1.call1(fname, [p], path)
-    sl = r.outcome[1][0]
-    hy = r.dstate.get("hyp", [])
-    invs = [h for h in hy if h[0] == "inv"]
-    encs = [h for h in hy if h[0] == "bytes"]
-    negs = [h for h in hy if h[0] == "isneg"]
-    ok = len(invs) == 1 and len(encs) == 1 and len(negs) == 1 and invs[0][1] == P1.Z
-    chk.add(Ob("%s: one inversion (of Z), one field encoding, one sign test" % label, "unsat" if ok else "sat", 0, [fname], "structure"))
-    if not ok:
-        return
-    iv = Poly.var(invs[0][2])
-    ginv = P1.Z * iv - 1
-    stages, mult = l1.stages_p3([P1])
-    st = [([ginv], [invs[0][2]])] + stages
-    ypoly, xpoly = encs[0][1], negs[0][1]
-    l1.goal(label, "encoded field element is y = Y/Z:  y*Z = Y (mod p, given Z*inv = 1)", ypoly * P1.Z - P1.Y, st, mult, fname)
-    l1.goal(label, "sign is taken from x = X/Z:  x*Z = X", xpoly * P1.Z - P1.X, st, mult, fname)
-    # byte-level: out = canonical encoding of y with bit 255 := parity of reduced x
-    out = r.heap[sl.obj][0]
-    enc, bit = encs[0][2], negs[0][2]
-    s = z3.Solver()
-    for c in r.pc:
-        s.add(c)
-    want31 = enc[31] | (z3.Extract(7, 0, bit) << 7)
-    goal = z3.And([out[i] == enc[i] for i in range(31)] + [out[31] == want31, z3.Extract(6, 0, out[31]) == z3.Extract(6, 0, enc[31]), z3.Extract(7, 7, out[31]) == z3.Extract(0, 0, bit)])
-    s.add(z3.Not(goal))
-    t0 = time.time()
-    chk.add(Ob("%s: 32 bytes = canonical little-endian y (< p) with bit 255 = parity of the fully reduced x; nothing else altered" % label, str(s.check()), time.time() - t0, [fname], "BV"))
-    chk.fact("%s: returns a 32-byte slice of a buffer allocated by the call; point not written" % label,
-             isinstance(sl, X.SliceV) and sl.len == 32 and sl.off == 0 and l1.ex.meta[sl.obj].kind in ("heap", "stack") and not any(w[0] == "w" and w[1] == p.obj for w in r.log), [fname])
-    # representation independence: (lambda*X : lambda*Y : lambda*Z : lambda*T) gives the same x, y - follows from x*Z = X, y*Z = Y with Z != 0 (field)
-    # zero-Z (inv(0)=0) never arises for valid points.
+    paths = l1.ex.call(fname, [p], path)
+    bad = [r for r in paths if r.outcome[0] != "ret"]
+    chk.add(Ob("Point.Bytes: no panic / engine error on a valid point (%d path(s))" % len(paths), "unsat" if paths and not bad else "sat", 0, [fname], "ring mode", detail=str([r.outcome for r in bad][:2])))
+    for pi, r in enumerate(paths):
+        if r.outcome[0] != "ret":
+            continue
+        label = "Point.Bytes" if len(paths) == 1 else "Point.Bytes [path %d]" % pi
+        sl = r.outcome[1][0]
+        hy = r.dstate.get("hyp", [])
+        invs = [h for h in hy if h[0] == "inv"]
+        encs = [h for h in hy if h[0] == "bytes"]
+        negs = [h for h in hy if h[0] == "isneg"]
+        eqs = [h for h in hy if h[0] == "eq"]
+        ok = len(encs) == 1 and len(negs) == 1 and len(invs) <= 1 and all(h[1] == P1.Z for h in invs)
+        chk.add(Ob("%s: at most one inversion (of Z), one field encoding, one sign test" % label, "unsat" if ok else "sat", 0, [fname], "structure"))
+        if not ok:
+            continue
+        stages, mult = l1.stages_p3([P1])
+        st = list(stages)
+        if invs:
+            iv = Poly.var(invs[0][2])
+            st = [([P1.Z * iv - 1], [invs[0][2]])] + st
+        # data-dependent tests taken on this path (Element.Equal atoms): decide their polarity under the path condition
+        for h in eqs:
+            so = z3.Solver()
+            for c in r.pc:
+                so.add(c)
+            so.push()
+            so.add(z3.Not(h[2]))
+            is_true = so.check() == z3.unsat
+            so.pop()
+            if is_true:
+                names = sorted({n for n in ("X1", "Y1", "Z1", "T1")}, key=lambda n: -h[1].degree_in(n))
+                st = [([h[1]], ["T1", "Y1", "X1", "Z1", "d"])] + st
+        ypoly, xpoly = encs[0][1], negs[0][1]
+        l1.goal(label, "encoded field element is y = Y/Z:  y*Z = Y (mod p, under the hypotheses of this path)", ypoly * P1.Z - P1.Y, st, mult, fname)
+        l1.goal(label, "sign is taken from x = X/Z:  x*Z = X", xpoly * P1.Z - P1.X, st, mult, fname)
+        out = r.heap[sl.obj][0]
+        enc, bit = encs[0][2], negs[0][2]
+        s = z3.Solver()
+        for c in r.pc:
+            s.add(c)
+        want31 = enc[31] | (z3.Extract(7, 0, bit) << 7)
+        goal = z3.And([out[i] == enc[i] for i in range(31)] + [out[31] == want31, z3.Extract(6, 0, out[31]) == z3.Extract(6, 0, enc[31]), z3.Extract(7, 7, out[31]) == z3.Extract(0, 0, bit)])
+        s.add(z3.Not(goal))
+        t0 = time.time()
+        chk.add(Ob("%s: 32 bytes = canonical little-endian y (< p) with bit 255 = parity of the fully reduced x; nothing else altered" % label, str(s.check()), time.time() - t0, [fname], "BV"))
+        chk.fact("%s: returns a 32-byte slice of a buffer allocated by the call; point not written" % label,
+                 isinstance(sl, X.SliceV) and sl.len == 32 and sl.off == 0 and l1.ex.meta[sl.obj].kind in ("heap", "stack") and not any(w[0] == "w" and w[1] == p.obj for w in r.log), [fname])
 
 
 def run(chk):
